@@ -908,3 +908,55 @@ pub fn check_c11_bool(c: &CheckCtx, _ix: &Index) {
         }
     }
 }
+
+/// C13 — a send begun after the drop of the last receiver handle returned must be Disconnected
+pub fn check_c13(c: &CheckCtx, _ix: &Index) {
+    // every receiver handle ever created: the first one + one per CloneRx/AddStream result
+    let mut created = 1usize;
+    let mut drops: Vec<u64> = Vec::new();
+    for e in c.h {
+        match e.op {
+            Op::CloneRx | Op::AddStream => {
+                if let Res::New { .. } = e.res {
+                    created += 1;
+                } else if !e.done() {
+                    return; // an open handle-creating call: count unknown
+                }
+            }
+            Op::DropRx | Op::Unsub => {
+                if e.done() {
+                    drops.push(e.t_ret);
+                }
+            }
+            _ => {}
+        }
+    }
+    if drops.len() < created {
+        return;
+    }
+    let gone_at = *drops.iter().max().unwrap();
+    for e in c.h {
+        if e.op.is_send() && e.t_call > gone_at && e.done() && e.res != Res::Disc {
+            violation(
+                "C13",
+                "no-receiver-send",
+                format!("no-receiver-send:concurrent:returns-{:?}", e.res),
+                format!(
+                    "the last receiver handle was dropped by {} but a later send did not fail as Disconnected: {}",
+                    gone_at,
+                    e.show()
+                ),
+            );
+            return;
+        }
+        if e.op.is_send() && e.t_call > gone_at && e.done() && !e.echo_ok {
+            violation(
+                "C13",
+                "no-receiver-send",
+                "no-receiver-send:value-not-handed-back".to_string(),
+                format!("Disconnected send did not hand back the same value: {}", e.show()),
+            );
+            return;
+        }
+    }
+}
